@@ -79,6 +79,26 @@ type fakeInst struct {
 	inYield        atomic.Bool
 	perturbed      atomic.Bool
 	sequential     bool
+
+	// gate: while gated, every non-weak AddReference call blocks until the
+	// script releases it (the call is "in flight" inside the directive instance)
+	gated     atomic.Bool
+	gmtx      sync.Mutex
+	waiting   []chan struct{}
+	inFlight  atomic.Int32
+	maxFlight atomic.Int32
+}
+
+// releaseOne lets the oldest in-flight AddReference call return.
+func (f *fakeInst) releaseOne() bool {
+	f.gmtx.Lock()
+	defer f.gmtx.Unlock()
+	if len(f.waiting) == 0 {
+		return false
+	}
+	close(f.waiting[0])
+	f.waiting = f.waiting[1:]
+	return true
 }
 
 func (f *fakeInst) GetContext() context.Context       { return f.ctx }
@@ -97,6 +117,17 @@ func (f *fakeInst) AddReference(cb directive.ReferenceHandler, weak bool) direct
 	}
 	if f.sequential && !f.inYield.Load() {
 		f.perturbed.Store(true)
+	}
+	if f.gated.Load() {
+		ch := make(chan struct{})
+		f.gmtx.Lock()
+		f.waiting = append(f.waiting, ch)
+		f.gmtx.Unlock()
+		if n := f.inFlight.Add(1); n > f.maxFlight.Load() {
+			f.maxFlight.Store(n)
+		}
+		<-ch
+		f.inFlight.Add(-1)
 	}
 	if f.disposedFlag.Load() {
 		f.acqDisposed.Add(1)
@@ -138,6 +169,7 @@ const (
 	aRemovedOther
 	aDisposed
 	aYield
+	aMark
 )
 
 type act struct {
@@ -157,6 +189,8 @@ func (a act) String() string {
 		return "RemovedOther"
 	case aDisposed:
 		return "Disposed"
+	case aMark:
+		return "|gate|"
 	}
 	return "Yield"
 }
@@ -173,6 +207,8 @@ func (a act) coq() string {
 		return "Do RemovedOther"
 	case aDisposed:
 		return "Do Disposed"
+	case aMark:
+		return "Mark"
 	}
 	return "Yield"
 }
@@ -365,6 +401,208 @@ func emit(c *hx.Ctx, acts []act, class string) {
 	}
 }
 
+// ---- gated scripts: AddReference calls held in flight ----
+
+// gatedScript: pre callbacks are delivered with the gate closed, then the
+// spawned acquisitions run until each is finished, blocked inside AddReference
+// or blocked on the handler mutex (Begin); win callbacks are then delivered one
+// after the other by a separate goroutine standing for the directive instance
+// (on the current code they wait for the mutex held by the acquisition in
+// flight); the gate is opened call by call; post callbacks follow at quiescence.
+type gatedScript struct {
+	pre, win, post []act
+}
+
+// settle yields until every goroutine besides the driver is finished, in flight
+// inside AddReference, or (bounded number of yields) blocked.
+func (e *env) settle(base int, helper *atomic.Bool) {
+	e.inst.inYield.Store(true)
+	defer e.inst.inYield.Store(false)
+	for i := 0; i < 400; i++ {
+		extra := int(e.inst.inFlight.Load())
+		if helper != nil && helper.Load() {
+			extra++
+		}
+		if runtime.NumGoroutine()-extra <= base {
+			return
+		}
+		runtime.Gosched()
+	}
+}
+
+func runGated(g gatedScript) (lives []int, e *env, maxFlight int, deadlock bool, ok bool) {
+	base := runtime.NumGoroutine()
+	e = newEnv(true)
+	e.inst.gated.Store(true)
+	for _, a := range g.pre {
+		e.apply(a, base)
+	}
+	e.settle(base, nil) // Begin
+	var alive atomic.Bool
+	alive.Store(true)
+	done := make(chan struct{})
+	go func() {
+		for _, a := range g.win {
+			e.apply(a, base)
+			runtime.Gosched()
+		}
+		alive.Store(false)
+		close(done)
+	}()
+	e.settle(base, &alive)
+	// open the gate, oldest call first
+	e.inst.gated.Store(false)
+	for e.inst.releaseOne() {
+		e.settle(base, &alive)
+	}
+	for i := 0; i < 2000 && alive.Load(); i++ {
+		e.settle(base, &alive)
+		e.inst.releaseOne()
+	}
+	if alive.Load() {
+		return nil, e, int(e.inst.maxFlight.Load()), true, true
+	}
+	<-done
+	rec := func() {
+		if !e.yield(base) {
+			deadlock = true
+		}
+		lives = append(lives, int(e.inst.strongAcquired.Load()-e.inst.strongReleased.Load()))
+	}
+	rec()
+	for _, a := range g.post {
+		if a.kind == aYield {
+			rec()
+		} else {
+			e.apply(a, base)
+		}
+	}
+	return lives, e, int(e.inst.maxFlight.Load()), deadlock, !e.inst.perturbed.Load()
+}
+
+func emitGated(c *hx.Ctx, g gatedScript, class string) {
+	var lives []int
+	var e *env
+	var maxFlight int
+	var deadlock, ok bool
+	for try := 0; try < 6 && !ok; try++ {
+		lives, e, maxFlight, deadlock, ok = runGated(g)
+	}
+	// the script as the model sees it: markers are no steps
+	var all []act
+	all = append(all, g.pre...)
+	all = append(all, act{kind: aMark})
+	all = append(all, g.win...)
+	all = append(all, act{kind: aMark}, act{kind: aYield})
+	all = append(all, g.post...)
+	names := make([]string, len(all))
+	terms := make([]string, len(all))
+	for i, a := range all {
+		names[i] = a.String()
+		terms[i] = a.coq()
+	}
+	desc := map[string]any{"actions": strings.Join(names, "; "), "live_at_yields": fmt.Sprint(lives), "class": class,
+		"max_addreference_calls_in_flight": maxFlight,
+		"note":                             "Begin = the spawned acquisitions run up to (and are held inside) di.AddReference(nil,false); the callbacks between Begin and Open are delivered while those calls are in flight; Open = the calls return, oldest first"}
+	if !ok {
+		c.Class("unschedulable")
+		return
+	}
+	if deadlock {
+		c.Failf("gated-deadlock", desc, "the handler did not become quiescent after the held AddReference calls returned")
+		return
+	}
+	liveT := make([]string, len(lives))
+	for i, l := range lives {
+		liveT[i] = fmt.Sprint(l)
+	}
+	c.Case(hx.App("HOG", hx.List(terms), hx.List(liveT))+"%nat", desc)
+	c.Class(class)
+	if maxFlight > 0 {
+		c.Nontrivial("g" + strings.Join(names, ";"))
+	}
+	// direct oracle at the quiescent points
+	present := map[int]bool{}
+	disposed := false
+	k := 0
+	for i, a := range all {
+		switch a.kind {
+		case aAdded:
+			present[a.id] = true
+		case aRemoved:
+			delete(present, a.id)
+		case aDisposed:
+			disposed = true
+		case aYield:
+			want := 0
+			if len(present) > 0 && !disposed {
+				want = 1
+			}
+			if live := lives[k]; live != want {
+				key := "strong-ref-without-links"
+				if live < want {
+					key = "no-strong-ref-while-links-exist"
+				} else if want == 1 {
+					key = "more-than-one-strong-ref"
+				}
+				c.Failf(key, desc, "after action %d (%s), at quiescence: %d strong reference(s) outstanding with %d link(s) attached (disposed=%v); required %d (up to %d AddReference calls were in flight together)",
+					i, a.String(), live, len(present), disposed, want, maxFlight)
+				return
+			}
+			k++
+		}
+	}
+	if e.inst.doubleRelease.Load() != 0 {
+		c.Failf("double-release", desc, "a strong reference was released %d extra time(s)", e.inst.doubleRelease.Load())
+	}
+}
+
+// gatedScripts enumerates: 1-3 links added before Begin, every environment-valid
+// window of up to maxWin callbacks (add a new link, remove a present one,
+// dispose), then either all links removed or a quiescent point first.
+func gatedScripts(maxWin int, f func(gatedScript)) {
+	for nPre := 1; nPre <= 3; nPre++ {
+		var pre []act
+		for id := 1; id <= nPre; id++ {
+			pre = append(pre, act{aAdded, id})
+		}
+		var rec func(win []act, present []int, next int)
+		rec = func(win []act, present []int, next int) {
+			var removeAll []act
+			for _, id := range present {
+				removeAll = append(removeAll, act{aRemoved, id})
+			}
+			w := append([]act{}, win...)
+			f(gatedScript{pre: pre, win: w, post: append(append([]act{}, removeAll...), act{kind: aYield})})
+			if len(present) > 1 {
+				// remove all but one, look, remove the last
+				p := append([]act{}, removeAll[:len(removeAll)-1]...)
+				p = append(p, act{kind: aYield}, removeAll[len(removeAll)-1], act{kind: aYield})
+				f(gatedScript{pre: pre, win: w, post: p})
+			}
+			if len(win) == maxWin {
+				return
+			}
+			if next <= 5 {
+				rec(append(w, act{aAdded, next}), append(append([]int{}, present...), next), next+1)
+			}
+			for i, id := range present {
+				np := append(append([]int{}, present[:i]...), present[i+1:]...)
+				rec(append(w, act{aRemoved, id}), np, next)
+				if i >= 1 {
+					break // removing the first or the second present link is enough variety
+				}
+			}
+			rec(append(w, act{kind: aDisposed}), present, next)
+		}
+		var present []int
+		for id := 1; id <= nPre; id++ {
+			present = append(present, id)
+		}
+		rec(nil, present, nPre+1)
+	}
+}
+
 // enumerate all environment-valid link-only action lists of exactly length n over nl links.
 func enumerate(nl, n int, f func([]act)) {
 	var rec func(cur []act, present uint)
@@ -390,7 +628,7 @@ func c33(c *hx.Ctx) {
 	c.Type = "c33_case"
 	c.ShardSize = 100
 	c.Agree = "c33_agree"
-	c.Rule = "action lists of HandleValueAdded/HandleValueRemoved/HandleInstanceDisposed callbacks on 1-3 links with Yield = run every spawned goroutine (GOMAXPROCS(1)); exhaustive short lists, random longer ones, a malformed stream (duplicate adds, spurious removes, non-link values); concurrent add/remove runs checked by the oracle only; non-trivial = distinct valid list in which a strong reference was acquired"
+	c.Rule = "gated scripts (1-3 acquisitions started and held inside AddReference, callbacks delivered in that window, gate opened call by call); action lists of HandleValueAdded/HandleValueRemoved/HandleInstanceDisposed callbacks on 1-3 links with Yield = run every spawned goroutine (GOMAXPROCS(1)); exhaustive short lists, random longer ones, a malformed stream (duplicate adds, spurious removes, non-link values); concurrent add/remove runs checked by the oracle only; non-trivial = distinct valid list in which a strong reference was acquired"
 	runtime.GOMAXPROCS(1)
 	old := debug.SetGCPercent(-1)
 	thorough := c.Tier == "thorough"
@@ -407,6 +645,12 @@ func c33(c *hx.Ctx) {
 	for _, a := range fixed {
 		emit(c, a, "fixed")
 	}
+	// AddReference calls held in flight: overlapping acquisitions
+	maxWin := 2
+	if thorough {
+		maxWin = 3
+	}
+	gatedScripts(maxWin, func(g gatedScript) { emitGated(c, g, fmt.Sprintf("gated-%dpre-%dwin", len(g.pre), len(g.win))) })
 	// exhaustive sweeps
 	maxLen2, maxLen3 := 4, 3
 	if thorough {
